@@ -18,7 +18,7 @@
    imports, methods / generics / function literals as generator hosts are not modelled. *)
 From Coq Require Import List.
 From Verif Require Import Base Syntax Rewrite Side.
-From Verif Require Import Accept.
+From Verif Require Import Accept C01Main Placement.
 Import ListNotations.
 
 Theorem C11_no_assertion_failure_partial :
@@ -35,6 +35,21 @@ Theorem C11_no_assertion_any_fuel_partial :
     ok_err (rw_stmts f ss (mkBlock kd)).
 Proof. intros f k ss kd Hs Hk. exact (proj1 (accept f) k ss (mkBlock kd) Hs (ready_mk kd Hk)). Qed.
 Print Assumptions C11_no_assertion_any_fuel_partial.
+
+(* whatever the rewriter's pass2 produced (of nesting depth below the fuel of pass3), after pass3 no
+   break / continue is left where Go would reject it: break only in a native loop or switch of the
+   same function literal, continue only in a native loop *)
+Theorem C11_branch_placement_partial :
+  forall (body mid out : list stmt) (k : nat),
+    pass12 body = OK mid -> rewrite body = OK out ->
+    S (S (S k)) < P3FUEL -> forallb (fitsb k) mid = true ->
+    forallb (bpl (S (S k)) false false) out = true.
+Proof.
+  intros body mid out k H12 Hrw Hk Hf.
+  destruct (rewrite_spec body out Hrw) as [mid' [H12' ->]]. rewrite H12 in H12'. injection H12' as <-.
+  apply pass3_placement; assumption.
+Qed.
+Print Assumptions C11_branch_placement_partial.
 
 (* non-vacuity: a supported body on which the model succeeds; and a body outside the fragment
    (yield in an if-init) on which the model does fail an assertion *)
